@@ -334,6 +334,17 @@ def c04(tier='quick'):
                         While(Cmp('<=', Var('i', I32), Lit(n, I32)), [Assign(Index(a, Var('i', I32)), Cast(Z, ety)), stepst]),
                         Return(_weights_sum(a, n, ety))]
                 out.append(Template('c04/loop_write_oob/%s/%s' % (tag, step), fn3(body), family='c04-loop', expect='any', unroll=n + 3))
+            # constant *expressions* as indices: the element selected must be the one the run-time value of the
+            # expression selects (truncating / and %)
+            if n >= 3:
+                ce = {'negrem': Bin('+', Bin('%', Bin('-', Lit(0, I32), Lit(7, I32)), Lit(3, I32)), Lit(2, I32)),     # -1+2 = 1
+                      'negdiv': Bin('+', Bin('/', Bin('-', Lit(0, I32), Lit(7, I32)), Lit(2, I32)), Lit(4, I32)),     # -3+4 = 1
+                      'negrem_rev': Bin('%', Bin('-', Lit(0, I32), Lit(7, I32)), Lit(3, I32)),                          # -1
+                      'mul': Bin('-', Bin('*', Lit(2, I32), Lit(3, I32)), Lit(5, I32))}                                 # 1
+                for cn, cx in ce.items():
+                    out.append(Template('c04/constexpr_read/%s/%s' % (tag, cn), fn3([mk] + rd(cx)), family='c04-constexpr', expect='any'))
+                    body = [Let('k', I32, cx), mk] + rd(Var('k', I32))
+                    out.append(Template('c04/constexpr_let_read/%s/%s' % (tag, cn), fn3(body), family='c04-constexpr', expect='any'))
             # index computed from a parameter (opaque): must be rejected or bounds-checked
             body = [mk] + rd(Cast(Z, I32))
             out.append(Template('c04/param_read/%s' % tag, fn3(body), family='c04-param', expect='any'))
